@@ -7,6 +7,9 @@ require (
 	pgregory.net/rapid v1.3.0
 )
 
-require golang.org/x/exp v0.0.0-20241009180824-f66d83c29e7c // indirect
+require (
+	golang.org/x/exp v0.0.0-20241009180824-f66d83c29e7c // indirect
+	golang.org/x/tools v0.26.0 // indirect
+)
 
 replace github.com/magisterquis/curlrevshell => /repo
